@@ -15,13 +15,12 @@ package main
 //       results must be bit-identical.
 
 import (
-	"context"
+	"time"
 	"fmt"
 	"math"
 	"strconv"
 	"strings"
 	"sync/atomic"
-	"time"
 
 	lua "github.com/yuin/gopher-lua"
 	"github.com/yuin/gopher-lua/parse"
@@ -469,8 +468,10 @@ func runRealWith(src string, lv, gv []string, pre func(L *lua.LState)) string {
 	if pre != nil {
 		pre(L)
 	}
-	ctx, cancel := context.WithTimeout(context.Background(), 700*time.Millisecond)
-	defer cancel()
+	// an instruction budget, not a wall-clock timeout: the programs of this fragment have no loops that run more than a
+	// few iterations, so 200 000 dispatched instructions mean a real loop — whatever the load of the machine
+	ctx, stop := newBudgetCtxWithBackstop(200000, 2*time.Minute)
+	defer stop()
 	L.SetContext(ctx)
 	fn, err := L.LoadString(src)
 	if err != nil {
